@@ -285,6 +285,12 @@ struct snapraid_io {
 	unsigned writer_index;
 
 	/**
+	 * Number of writers that have completed all the scheduled writes
+	 * and are waiting for new ones.
+	 */
+	unsigned writer_idle;
+
+	/**
 	 * Counts the error happening in the writers.
 	 */
 	int writer_error[IO_WRITER_ERROR_MAX];
@@ -399,6 +405,11 @@ extern void (*io_write_next)(struct snapraid_io* io, block_off_t blockcur, int s
  * Refresh the number of cached blocks for all data and parity disks.
  */
 extern void (*io_refresh)(struct snapraid_io* io);
+
+/**
+ * Wait for the completion of all the parity writes already scheduled.
+ */
+extern void (*io_flush)(struct snapraid_io* io);
 
 #endif
 
